@@ -11,14 +11,14 @@ git apply --check -R out/patch.diff 2>/dev/null || { echo "patch not applied in 
 echo "== with change: demo" >> "$LOG"
 cargo test --offline "$@" >> "$LOG" 2>&1; D1=$?
 echo "== with change: suite" >> "$LOG"
-cargo nextest run --workspace --no-fail-fast --tool-config-file pb:/w/lib/nextest.toml --profile pb --test-threads 8 --offline -E 'not binary(/^demo_/)' > "$WT/out/confirm_suite.log" 2>&1
+cargo nextest run --workspace --no-fail-fast --tool-config-file pb:/w/lib/nextest.toml --profile pb --test-threads 8 --offline > "$WT/out/confirm_suite.log" 2>&1
 grep -E "^\s+(FAIL|Summary)" "$WT/out/confirm_suite.log" | sort -u >> "$LOG"
-FAILS=$(grep -E "^\s+FAIL" "$WT/out/confirm_suite.log" | sed -E 's/.*\] *//' | awk '{print $NF}' | sort -u | tr '\n' ' ')
+FAILS=$(grep -E "^\s+FAIL" "$WT/out/confirm_suite.log" | grep -v "demo_c" | sed -E 's/.*\] *//' | awk '{print $NF}' | sort -u | tr '\n' ' ')
 git apply -R out/patch.diff || exit 2
 echo "== without change: demo" >> "$LOG"
 cargo test --offline "$@" >> "$LOG" 2>&1; D2=$?
 git apply out/patch.diff
 echo "demo_with_change_exit=$D1 (want !=0)"
-echo "suite_failures_with_change=[$FAILS] (want subset of f1s08 f1s09 f1s10)"
+echo "suite_failures_with_change=[$FAILS] (demo tests excluded; want subset of f1s08 f1s09 f1s10)"
 echo "demo_without_change_exit=$D2 (want 0)"
 grep -E "Summary" "$WT/out/confirm_suite.log" | tail -1
